@@ -24,6 +24,10 @@ struct Query {
     quota4: i64, // -1 = not enforced, else 4 * max_processor_time
 }
 
+thread_local! {
+    static ORDER: std::cell::Cell<u32> = const { std::cell::Cell::new(0) };
+}
+
 fn run_one(tr: &Tracer, topo: &[P], q: &Query, op: &str, n: usize) {
     let mut hb = HardwareBuilder::new();
     for p in topo {
@@ -50,24 +54,74 @@ fn run_one(tr: &Tracer, topo: &[P], q: &Query, op: &str, n: usize) {
         };
         let base_set = base_set.expect("stimulus guarantees a non-empty source");
         let mut b = base_set.to_builder();
-        b = match q2.cls {
+        let excepted: Vec<Processor> = all.iter().filter(|p| q2.except.contains(&p.id())).cloned().collect();
+        let pass = q2.pass.clone();
+        // The criteria are independent of the order in which the builder methods are called (the last class selector and
+        // the last region policy win, filters and exclusions accumulate). ORDER picks one of several call orders; the odd
+        // ones first select the OPPOSITE class / another policy and correct it after the filter has been applied.
+        let order = ORDER.with(|o| {
+            let v = o.get();
+            o.set(v.wrapping_add(1));
+            v % 4
+        });
+        let cls = |b: many_cpus_impl::ProcessorSetBuilder, c: &str| match c {
             "P" => b.performance_processors_only(),
             "E" => b.efficiency_processors_only(),
             _ => b,
         };
-        b = match q2.policy.as_str() {
+        let pol = |b: many_cpus_impl::ProcessorSetBuilder, p: &str| match p {
             "same" => b.same_memory_region(),
             "different" => b.different_memory_regions(),
             "prefer_same" => b.prefer_same_memory_region(),
             "prefer_different" => b.prefer_different_memory_regions(),
             _ => b,
         };
-        let excepted: Vec<Processor> = all.iter().filter(|p| q2.except.contains(&p.id())).cloned().collect();
-        b = b.except(excepted.iter());
-        let pass = q2.pass.clone();
-        b = b.filter(move |p| pass.contains(&p.id()));
-        if q2.quota4 >= 0 {
-            b = b.enforce_resource_quota();
+        let opposite = match q2.cls {
+            "P" => "E",
+            "E" => "P",
+            _ => "P",
+        };
+        match order {
+            0 => {
+                b = cls(b, q2.cls);
+                b = pol(b, q2.policy.as_str());
+                b = b.except(excepted.iter());
+                b = b.filter(move |p| pass.contains(&p.id()));
+                if q2.quota4 >= 0 {
+                    b = b.enforce_resource_quota();
+                }
+            }
+            1 if q2.cls != "any" => {
+                b = cls(b, opposite);
+                b = b.filter(move |p| pass.contains(&p.id()));
+                b = cls(b, q2.cls);
+                b = b.except(excepted.iter());
+                b = pol(b, q2.policy.as_str());
+                if q2.quota4 >= 0 {
+                    b = b.enforce_resource_quota();
+                }
+            }
+            2 => {
+                if q2.quota4 >= 0 {
+                    b = b.enforce_resource_quota();
+                }
+                b = b.filter(move |p| pass.contains(&p.id()));
+                if matches!(q2.policy.as_str(), "same" | "different" | "prefer_same" | "prefer_different") {
+                    b = pol(b, if q2.policy == "different" { "same" } else { "different" });   // corrected below
+                }
+                b = b.except(excepted.iter());
+                b = pol(b, q2.policy.as_str());
+                b = cls(b, q2.cls);
+            }
+            _ => {
+                b = b.except(excepted.iter());
+                b = pol(b, q2.policy.as_str());
+                b = b.filter(move |p| pass.contains(&p.id()));
+                b = cls(b, q2.cls);
+                if q2.quota4 >= 0 {
+                    b = b.enforce_resource_quota();
+                }
+            }
         }
         let r = if op2 == "take" { b.take(NonZero::new(n).unwrap()) } else { b.take_all() };
         r.map(|set| set.processors().iter().map(|p| p.id()).collect::<Vec<u32>>())
